@@ -745,9 +745,10 @@ class BaseProject(object, metaclass=ABCMeta):
         self.organization.insert_absence_time_list(new_absence_time_list)
 
         for step_time in sorted(new_absence_time_list):
-            self.cost_list.insert(step_time, 0.0)
+            if step_time < len(self.cost_list):
+                self.cost_list.insert(step_time, 0.0)
+                self.time = self.time + 1
 
-        self.time = self.time + len(new_absence_time_list)
         self.absence_time_list = self.absence_time_list + new_absence_time_list
 
     def set_last_datetime(
